@@ -22,7 +22,7 @@ theorem addContiguous_length (A : SeqArith) (n : Int) (ps : List Page) :
     simp only [addContiguous]
     split
     · simp only [List.length_cons]; have := ih (popPage A n p).2; omega
-    · rfl
+    · simp
 
 theorem limitPops_length (A : SeqArith) (L : Lim) (n : Int) (ps : List Page) (np used : Int) :
     (limitPops A L n ps np used).items.length + (limitPops A L n ps np used).rest.length = ps.length := by
@@ -32,7 +32,7 @@ theorem limitPops_length (A : SeqArith) (L : Lim) (n : Int) (ps : List Page) (np
     simp only [limitPops]
     split
     · simp only [List.length_cons]; have := ih (popPage A n p).2 (np - 1) (used - 1); omega
-    · rfl
+    · simp
 
 theorem send_law (A : SeqArith) (c : Conn) (used : Int) (r0 : Reasm) (rs : List Reasm) (h : Acct c) :
     DeltaLaw c used (send A c used r0 rs) := by
@@ -41,12 +41,14 @@ theorem send_law (A : SeqArith) (c : Conn) (used : Int) (r0 : Reasm) (rs : List 
   unfold send DeltaLaw Acct
   dsimp only
   split
-  · refine ⟨?_, fun hc => by cases hc, fun _ => ?_⟩
-    · show c.npages - _ = _; omega
-    · show used - _ - _ = _; omega
-  · refine ⟨?_, fun _ => ?_, fun hc => by cases hc⟩
-    · show c.npages - _ = _; omega
-    · show used - _ = used - c.npages + (c.npages - _); omega
+  · refine ⟨?_, ?_, ?_⟩
+    · dsimp only; omega
+    · intro hc; cases hc
+    · intro _; dsimp only; omega
+  · refine ⟨?_, ?_, ?_⟩
+    · dsimp only; omega
+    · intro _; dsimp only; omega
+    · intro hc; cases hc
 
 theorem skipFlush_law (A : SeqArith) (c : Conn) (used : Int) (h : Acct c) :
     DeltaLaw c used (skipFlush A c used) := by
@@ -54,18 +56,20 @@ theorem skipFlush_law (A : SeqArith) (c : Conn) (used : Int) (h : Acct c) :
   split
   · rename_i hp
     unfold Acct at h; rw [hp] at h
-    refine ⟨by unfold Acct; rw [hp]; exact h, fun hc => by cases hc, fun _ => ?_⟩
-    show used = used - c.npages
-    simp at h; omega
+    refine ⟨?_, ?_, ?_⟩
+    · unfold Acct; dsimp only; rw [hp]; exact h
+    · intro hc; cases hc
+    · intro _; dsimp only; simp at h; omega
   · rename_i p ps hp
+    dsimp only
     unfold Acct at h; rw [hp] at h
     simp only [List.length_cons] at h
     have := send_law A { c with nextSeq := (popPage A c.nextSeq p).2, pages := ps, npages := c.npages - 1 }
-      (used - 1) (popPage A c.nextSeq p).1 [] (by unfold Acct; show c.npages - 1 = _; omega)
+      (used - 1) (popPage A c.nextSeq p).1 [] (by unfold Acct; dsimp only; omega)
     obtain ⟨a1, a2, a3⟩ := this
-    refine ⟨a1, fun hc => ?_, fun hc => ?_⟩
-    · have := a2 hc; simp only [] at this; omega
-    · have := a3 hc; simp only [] at this; omega
+    refine ⟨a1, ?_, ?_⟩
+    · intro hc; have := a2 hc; dsimp only at this; omega
+    · intro hc; have := a3 hc; dsimp only at this; omega
 
 theorem insertIntoConn_law (A : SeqArith) (L : Lim) (c : Conn) (used seq : Int) (b : Bytes) (fin : Bool)
     (ts : Int) (st : Step) (h : Acct c) (hst : insertIntoConn A L c used seq b fin ts = .ok st) :
@@ -78,28 +82,26 @@ theorem insertIntoConn_law (A : SeqArith) (L : Lim) (c : Conn) (used seq : Int) 
       (c.npages + ((pagesFromTCP A seq b fin ts).length : Int)) (used + ((pagesFromTCP A seq b fin ts).length : Int))
     rw [length_insertPages] at hlen
     unfold Acct at h
+    generalize (pagesFromTCP A seq b fin ts) = new at hst hlen
+    generalize limitPops A L c.nextSeq (insertPages A seq new c.pages)
+      (c.npages + (new.length : Int)) (used + (new.length : Int)) = R at hst hlen
     split at hst
     · rename_i hnil
       cases hst
       rw [hnil] at hlen
       simp only [List.length_nil] at hlen
-      refine ⟨?_, fun _ => ?_, fun hc => by cases hc⟩
-      · unfold Acct; show c.npages + _ - _ = _; rw [hnil]; simp only [List.length_nil]; omega
-      · show used + _ - _ = used - c.npages + (c.npages + _ - _); omega
+      refine ⟨?_, ?_, ?_⟩
+      · unfold Acct; dsimp only; rw [hnil]; simp only [List.length_nil]; omega
+      · intro _; dsimp only; omega
+      · intro hc; cases hc
     · rename_i r0 rs hcons
       cases hst
-      have hacc : Acct ({ c with nextSeq := (limitPops A L c.nextSeq (insertPages A seq (pagesFromTCP A seq b fin ts) c.pages)
-          (c.npages + ((pagesFromTCP A seq b fin ts).length : Int)) (used + ((pagesFromTCP A seq b fin ts).length : Int))).next,
-          pages := (limitPops A L c.nextSeq (insertPages A seq (pagesFromTCP A seq b fin ts) c.pages)
-          (c.npages + ((pagesFromTCP A seq b fin ts).length : Int)) (used + ((pagesFromTCP A seq b fin ts).length : Int))).rest,
-          npages := c.npages + ((pagesFromTCP A seq b fin ts).length : Int) - ((limitPops A L c.nextSeq (insertPages A seq (pagesFromTCP A seq b fin ts) c.pages)
-          (c.npages + ((pagesFromTCP A seq b fin ts).length : Int)) (used + ((pagesFromTCP A seq b fin ts).length : Int))).items.length : Int) } : Conn) := by
+      have hacc : Acct (⟨R.next, R.rest, c.npages + (new.length : Int) - (R.items.length : Int), c.lastSeen, c.sid⟩ : Conn) := by
         unfold Acct; dsimp only; omega
-      obtain ⟨a1, a2, a3⟩ := send_law A _ (used + ((pagesFromTCP A seq b fin ts).length : Int) - ((limitPops A L c.nextSeq (insertPages A seq (pagesFromTCP A seq b fin ts) c.pages)
-          (c.npages + ((pagesFromTCP A seq b fin ts).length : Int)) (used + ((pagesFromTCP A seq b fin ts).length : Int))).items.length : Int)) r0 rs hacc
-      refine ⟨a1, fun hc => ?_, fun hc => ?_⟩
-      · have := a2 hc; dsimp only at this; omega
-      · have := a3 hc; dsimp only at this; omega
+      obtain ⟨a1, a2, a3⟩ := send_law A _ (used + (new.length : Int) - (R.items.length : Int)) r0 rs hacc
+      refine ⟨a1, ?_, ?_⟩
+      · intro hc; have := a2 hc; dsimp only at this; omega
+      · intro hc; have := a3 hc; dsimp only at this; omega
 
 theorem assembleConn_law (A : SeqArith) (L : Lim) (c : Conn) (used : Int) (s : Seg) (st : Step)
     (h : Acct c) (hst : assembleConn A L c used s = .ok st) : DeltaLaw c used st := by
@@ -125,13 +127,13 @@ theorem deltaLaw_trans (c : Conn) (used : Int) (st1 st2 : Step) (calls : List (L
   obtain ⟨_, a2, _⟩ := h1
   obtain ⟨b1, b2, b3⟩ := h2
   have := a2 hc
-  refine ⟨b1, fun h => ?_, fun h => ?_⟩
-  · have := b2 h; show st2.used = _; omega
-  · have := b3 h; show st2.used = _; omega
+  refine ⟨b1, ?_, ?_⟩
+  · intro h; have := b2 h; show st2.used = used - c.npages + st2.conn.npages; omega
+  · intro h; have := b3 h; show st2.used = _; omega
 
 theorem deltaLaw_refl (c : Conn) (used : Int) (calls : List (List Reasm)) (h : Acct c) :
     DeltaLaw c used { conn := c, closed := false, used := used, calls := calls } :=
-  ⟨h, fun _ => by show used = used - c.npages + c.npages; omega, fun hc => by cases hc⟩
+  ⟨h, fun _ => (by show used = used - c.npages + c.npages; omega), fun hc => (by cases hc)⟩
 
 theorem flushLoop_law (A : SeqArith) (T : Int) (fuel : Nat) (c : Conn) (used : Int)
     (calls : List (List Reasm)) (fl : Bool) (h : Acct c) :
@@ -166,10 +168,13 @@ theorem flushConn_law (A : SeqArith) (T : Int) (ca : Bool) (c : Conn) (used : In
     have hu := a2 hcond.1.1.2
     unfold Acct at a1
     rw [hcond.1.2] at a1
-    refine ⟨by unfold Acct; show _ = _; rw [hcond.1.2]; exact a1, fun hc => by cases hc, fun _ => ?_⟩
-    show (flushLoop A T c.pages.length c used [] false).1.used = _
-    simp at a1
-    omega
+    refine ⟨?_, ?_, ?_⟩
+    · unfold Acct; dsimp only; rw [hcond.1.2]; exact a1
+    · intro hc; cases hc
+    · intro _
+      show (flushLoop A T c.pages.length c used [] false).1.used = _
+      simp at a1
+      omega
   · exact hl
 
 theorem flushAllLoop_law (A : SeqArith) (fuel : Nat) (c : Conn) (used : Int)
@@ -186,5 +191,137 @@ theorem flushAllLoop_law (A : SeqArith) (fuel : Nat) (c : Conn) (used : Int)
       have hc' : (skipFlush A c used).closed = false := by simpa using hc
       have := ih (skipFlush A c used).conn (skipFlush A c used).used (calls ++ (skipFlush A c used).calls) hs.1
       exact deltaLaw_trans c used _ _ (flushAllLoop A f (skipFlush A c used).conn (skipFlush A c used).used (calls ++ (skipFlush A c used).calls)).calls hs hc' this
+
+theorem flushAllConn_law (A : SeqArith) (c : Conn) (used : Int) (h : Acct c) :
+    DeltaLaw c used (flushAllConn A c used) := flushAllLoop_law A _ c used [] h
+
+/-! ### the pool: used = Σ pages of live connections -/
+
+def sumPages (cs : List (Nat × Conn)) : Int := (cs.map (fun kc => kc.2.npages)).sum
+
+def oldPages (k : Nat) (cs : List (Nat × Conn)) : Int :=
+  match lookup k cs with
+  | some c => c.npages
+  | none => 0
+
+theorem sumPages_cons (x : Nat × Conn) (cs : List (Nat × Conn)) :
+    sumPages (x :: cs) = x.2.npages + sumPages cs := by simp [sumPages]
+
+theorem oldPages_cons (k k' : Nat) (c' : Conn) (cs : List (Nat × Conn)) :
+    oldPages k ((k', c') :: cs) = if k = k' then c'.npages else oldPages k cs := by
+  unfold oldPages
+  by_cases h : k = k'
+  · simp [lookup, h]
+  · simp [lookup, h]
+
+theorem oldPages_of_lt (k : Nat) (cs : List (Nat × Conn)) (h : ∀ a ∈ cs, k < a.1) : oldPages k cs = 0 := by
+  unfold oldPages; rw [lookup_none_of_lt k cs h]
+
+theorem sum_upsert (k : Nat) (c : Conn) (cs : List (Nat × Conn)) (h : KeysSorted cs) :
+    sumPages (upsert k c cs) = sumPages cs - oldPages k cs + c.npages := by
+  induction cs with
+  | nil => simp [upsert, sumPages, oldPages, lookup]
+  | cons x cs ih =>
+    obtain ⟨k', c'⟩ := x
+    unfold KeysSorted at h
+    rw [List.pairwise_cons] at h
+    simp only [upsert]
+    split
+    · rename_i e
+      rw [sumPages_cons, sumPages_cons, oldPages_cons, if_pos e]
+      dsimp only; omega
+    · rename_i hne
+      split
+      · rename_i hlt
+        rw [sumPages_cons, oldPages_cons, if_neg hne, oldPages_of_lt k cs (fun a ha => Nat.lt_trans hlt (h.1 a ha))]
+        dsimp only; omega
+      · rw [sumPages_cons, sumPages_cons, ih h.2, oldPages_cons, if_neg hne]
+        dsimp only; omega
+
+theorem sum_remove (k : Nat) (cs : List (Nat × Conn)) (h : KeysSorted cs) :
+    sumPages (remove k cs) = sumPages cs - oldPages k cs := by
+  induction cs with
+  | nil => simp [remove, sumPages, oldPages, lookup]
+  | cons x cs ih =>
+    obtain ⟨k', c'⟩ := x
+    unfold KeysSorted at h
+    rw [List.pairwise_cons] at h
+    simp only [remove]
+    split
+    · rename_i e
+      rw [sumPages_cons, oldPages_cons, if_pos e]
+      dsimp only; omega
+    · rename_i hne
+      rw [sumPages_cons, sumPages_cons, ih h.2, oldPages_cons, if_neg hne]
+      dsimp only; omega
+
+/-- the accounting invariant of the whole assembler -/
+def AcctInv (P : Pool) : Prop :=
+  KeysSorted P.conns ∧ (∀ k c, lookup k P.conns = some c → Acct c ∧ NoWtf c) ∧ P.used = sumPages P.conns
+
+theorem putBack_acct (P : Pool) (k : Nat) (c : Conn) (st : Step) (h : AcctInv P)
+    (hold : oldPages k P.conns = c.npages) (hl : DeltaLaw c P.used st) (hw : NoWtf st.conn) :
+    AcctInv (putBack P k st) := by
+  obtain ⟨h1, h2, h3⟩ := h
+  obtain ⟨l1, l2, l3⟩ := hl
+  refine ⟨?_, ?_, ?_⟩
+  · unfold putBack
+    split
+    · exact sorted_remove _ _ h1
+    · exact sorted_upsert _ _ _ h1
+  · intro k' c' hlk
+    by_cases hk : k' = k
+    · subst hk
+      rw [lookup_putBack_self P k' st h1] at hlk
+      split at hlk
+      · cases hlk
+      · cases hlk; exact ⟨l1, hw⟩
+    · rw [lookup_putBack_ne P k k' st h1 hk] at hlk
+      exact h2 k' c' hlk
+  · unfold putBack
+    split
+    · rename_i hc
+      show st.used = sumPages (remove k P.conns)
+      rw [sum_remove k _ h1, hold, l3 hc, h3]
+    · rename_i hc
+      show st.used = sumPages (upsert k st.conn P.conns)
+      rw [sum_upsert k _ _ h1, hold, l2 (by simpa using hc), h3]
+
+theorem oldPages_some (k : Nat) (cs : List (Nat × Conn)) (c : Conn) (h : lookup k cs = some c) :
+    oldPages k cs = c.npages := by unfold oldPages; rw [h]
+
+theorem oldPages_none (k : Nat) (cs : List (Nat × Conn)) (h : lookup k cs = none) :
+    oldPages k cs = 0 := by unfold oldPages; rw [h]
+
+theorem acct_poolStepInv (A : SeqArith) (hA : ∀ x, A.diff x x ≤ 0) :
+    PoolStepInv A AcctInv (fun s => s.seq ≠ invalidSeq) true where
+  sorted := fun P h => h.1
+  opt := fun _ P a b h => h
+  asmOld := by
+    intro P s c h hs hl
+    obtain ⟨ha, hw⟩ := h.2.1 _ _ hl
+    obtain ⟨st, hst, hw'⟩ := assembleConn_noWtf A hA P.lim c P.used s hw hs
+    exact ⟨st, hst, putBack_acct P s.key c st h (oldPages_some _ _ _ hl)
+      (assembleConn_law A P.lim c P.used s st ha hst) hw'⟩
+  asmNew := by
+    intro P s h hs hl
+    have hw : NoWtf (freshConn s.ts P.nextSid) := by simp [NoWtf, HeadNe, freshConn]
+    have ha : Acct (freshConn s.ts P.nextSid) := by simp [Acct, freshConn]
+    obtain ⟨st, hst, hw'⟩ := assembleConn_noWtf A hA P.lim _ P.used s hw hs
+    refine ⟨st, hst, ?_⟩
+    exact putBack_acct { P with nextSid := P.nextSid + 1 } s.key (freshConn s.ts P.nextSid) st h
+      (oldPages_none _ _ hl) (assembleConn_law A P.lim _ P.used s st ha hst) hw'
+  flush := by
+    intro P k c T ca h hl
+    obtain ⟨ha, hw⟩ := h.2.1 _ _ hl
+    exact putBack_acct P k c _ h (oldPages_some _ _ _ hl) (flushConn_law A T ca c P.used ha)
+      (flushConn_noWtf A hA T ca c P.used hw)
+  flushAll := by
+    intro P k c h hl
+    obtain ⟨ha, hw⟩ := h.2.1 _ _ hl
+    exact putBack_acct P k c _ h (oldPages_some _ _ _ hl) (flushAllConn_law A c P.used ha)
+      (flushAllLoop_noWtf A hA _ c P.used _ hw)
+
+theorem acctInv_init : AcctInv {} := ⟨by simp [KeysSorted], by intro k c h; simp [lookup] at h, rfl⟩
 
 end Gp.Asm
